@@ -116,7 +116,15 @@ where
     debug_assert!(xs.len() == ys.len(), "number of X and Y coordinates must be the same");
 
     let roots = poly_from_roots(xs);
-    let numerators: Vec<Vec<E>> = xs.iter().map(|&x| syn_div(&roots, 1, x)).collect();
+    let numerators: Vec<Vec<E>> = xs
+        .iter()
+        .map(|&x| {
+            // divide by (x - x_i); `syn_div` cannot be used as it does not accept x_i = 0
+            let mut numerator = roots.clone();
+            div_by_linear_in_place(&mut numerator, x);
+            numerator
+        })
+        .collect();
 
     let denominators: Vec<E> = numerators.iter().zip(xs).map(|(e, &x)| eval(e, x)).collect();
     let denominators = batch_inversion(&denominators);
@@ -505,13 +513,7 @@ where
     assert!(p.len() > a, "divisor degree cannot be greater than dividend size");
 
     if a == 1 {
-        // if we are dividing by (x - `b`), we can use a single variable to keep track
-        // of the remainder; this way, we can avoid shifting the values in the slice later
-        let mut c = E::ZERO;
-        for coeff in p.iter_mut().rev() {
-            *coeff += b * c;
-            mem::swap(coeff, &mut c);
-        }
+        div_by_linear_in_place(p, b);
     } else {
         // if we are dividing by a polynomial of higher power, we need to keep track of the
         // full remainder. we do that in place, but then need to shift the values at the end
@@ -530,6 +532,17 @@ where
         // discard the remainder
         p.copy_within(a.., 0);
         p[degree_offset..].fill(E::ZERO);
+    }
+}
+
+/// Divides polynomial `p` by (x - `b`), for any `b`, and saves the quotient into `p`.
+fn div_by_linear_in_place<E: FieldElement>(p: &mut [E], b: E) {
+    // we use a single variable to keep track of the remainder; this way, we can avoid shifting
+    // the values in the slice later
+    let mut c = E::ZERO;
+    for coeff in p.iter_mut().rev() {
+        *coeff += b * c;
+        mem::swap(coeff, &mut c);
     }
 }
 
